@@ -4,9 +4,8 @@ use llfree::{
     Alloc, Class, FrameId, HUGE_FRAMES, HUGE_ORDER, Policy, PolicyFn, TREE_FRAMES, TREE_HUGE,
     TREE_ORDER, TreeId,
 };
-use std::panic::{AssertUnwindSafe, catch_unwind};
 
-use crate::common::{Config, Op, Res, Sut, TreeOp, panic_msg};
+use crate::common::{Config, Op, Res, Sut, TreeOp};
 use crate::model::{FREE, Model};
 
 #[derive(Clone, Debug)]
@@ -490,8 +489,7 @@ pub fn state(m: &Model, sut: &Sut, full_frames: bool, out: &mut Vec<Violation>) 
     }
     // --- validate
     if !m.any_offline() {
-        if let Err(p) = catch_unwind(AssertUnwindSafe(|| a.validate())) {
-            let msg = panic_msg(p);
+        if let Err(msg) = crate::common::catch(|| a.validate()) {
             out.push(Violation::new(
                 "C04",
                 format!("validate failed: {}", crate::common::panic_signature(&msg)),
